@@ -1,6 +1,7 @@
 use std::iter::once;
 
 use crate::bound::{Bounds, WhereClauseBuilder};
+use crate::syn_utils::expand_self;
 use proc_macro2::{Span, TokenStream, TokenTree};
 use quote::{quote, quote_spanned, ToTokens};
 use structmeta::{Flag, ToTokens};
@@ -139,18 +140,24 @@ fn build_compare_op(
         CompareOp::PartialEq | CompareOp::PartialOrd | CompareOp::Ord | CompareOp::Hash => {
             (body, quote!())
         }
-        CompareOp::Eq => (
-            quote!(),
-            quote! {
-                const _: () = {
-                    #[allow(clippy::double_parens)]
-                    #[allow(unused_parens)]
-                    fn _f #impl_g (this: &#this_ty) #wheres {
-                        #body
-                    }
-                };
-            },
-        ),
+        CompareOp::Eq => {
+            // `Self` cannot be used in a free function: replace it with the type itself.
+            let generics = expand_self(source.generics(), &this_ty);
+            let (impl_g, _, _) = generics.split_for_impl();
+            let wheres = expand_self_in_where_clause(&wheres, &this_ty)?;
+            (
+                quote!(),
+                quote! {
+                    const _: () = {
+                        #[allow(clippy::double_parens)]
+                        #[allow(unused_parens)]
+                        fn _f #impl_g (this: &#this_ty) #wheres {
+                            #body
+                        }
+                    };
+                },
+            )
+        }
     };
 
     Ok(quote! {
@@ -163,6 +170,14 @@ fn build_compare_op(
 
         #checker
     })
+}
+
+fn expand_self_in_where_clause(wheres: &TokenStream, this_ty: &Type) -> Result<TokenStream> {
+    if wheres.is_empty() {
+        return Ok(TokenStream::new());
+    }
+    let wheres: syn::WhereClause = parse2(wheres.clone())?;
+    Ok(expand_self(&wheres, this_ty).to_token_stream())
 }
 
 fn build_partial_eq_body(
